@@ -419,3 +419,57 @@ package table
 //@   assert[trailer-from-the-end] before call BytesToU32#1 : len(arg0) == 4
 //@   assert[out-of-range-block] before return#1 : result0 == nil && result1 != nil && idx >= ret(offsetsLength#1)
 
+// ---- iterating several tables of one level as one sequence (C18, C05) ----
+
+//@ func (*ConcatIterator).setIdx
+//@   props C18 C05
+//@   light
+//@   assert[iterator-of-that-table] before call NewIterator : arg0 == s.tables[idx] && arg1 == s.options && s.iters[idx] == nil
+//@   assert[out-of-range-means-none] before return#1 : s.cur == nil && (idx < 0 || idx >= len(s.iters)) && s.idx == idx
+//@   assert[current-is-that-table] before return#2 : s.idx == idx && s.cur == s.iters[idx]
+
+//@ func (*ConcatIterator).Rewind
+//@   props C18 C05
+//@   light
+//@   assert[forward-starts-at-first-table] before call setIdx#1 : s.options&REVERSED == 0 && arg1 == 0
+//@   assert[reverse-starts-at-last-table] before call setIdx#2 : s.options&REVERSED != 0 && arg1 == len(s.iters) - 1
+//@   assert[then-rewind-it] before call Rewind : arg0 == s.cur
+
+// Seek: forward, the first table whose biggest key is at or after the target; reverse, the last
+// table whose smallest key is at or before it; none when the target lies outside.
+//@ func (*ConcatIterator).Seek
+//@   props C18 C05
+//@   light
+//@   assert[search-over-all-tables] before call Search : arg0 == len(s.tables)
+//@   assert[outside-means-none] before call setIdx#1 : arg1 == -1 && (idx >= len(s.tables) || idx < 0)
+//@   assert[seek-inside-the-chosen-table] before call Seek : arg0 == s.cur && arg1 == key && called(setIdx#2)
+//@   assert[chosen-table] before call setIdx#2 : arg1 == idx && idx >= 0 && idx < len(s.tables)
+
+//@ func (*ConcatIterator).Seek.$1
+//@   props C18 C05
+//@   requires s != nil && 0 <= i && i < len(s.tables) && s.tables[i] != nil
+//@   domain len(s.tables[i].biggest) >= 8 && len(key) >= 8
+//@   ensures[biggest-at-or-after-target] result <==> keycmp(s.tables[i].biggest, key) >= 0
+//@   assigns nothing
+
+// Next: stay in the current table while it has entries; otherwise move one table on in the
+// iterator's direction (skipping empty tables) and start at that table's first entry.
+//@ func (*ConcatIterator).Next
+//@   props C18 C05
+//@   light
+//@   assert[stay-while-valid] before return#1 : ret(Valid#1)
+//@   assert[forward-next-table] before call setIdx#1 : s.options&REVERSED == 0 && arg1 == s.idx + 1
+//@   assert[reverse-previous-table] before call setIdx#2 : s.options&REVERSED != 0 && arg1 == s.idx - 1
+//@   assert[start-of-the-new-table] before call Rewind : arg0 == s.cur && s.cur != nil
+
+//@ func (*ConcatIterator).Valid
+//@   props C18 C05
+//@   light
+//@   assert[needs-a-current-table] before call Valid : s.cur != nil && arg0 == s.cur
+//@   assert[none-is-invalid] before return : s.cur == nil ==> !result
+
+//@ func NewConcatIterator
+//@   props C18 C05
+//@   light
+//@   assert[tables-and-direction-kept] before return : result != nil && result.options == opt && result.tables == tbls && len(result.iters) == len(tbls) && result.idx == -1
+
